@@ -280,3 +280,87 @@ fn c18_schedule_adds_exactly_one_completion_at_its_instant() {
     kani::cover!(!immediate && when > Duration::ZERO, "scheduled in the future");
     std::mem::forget(r);
 }
+
+// ---------------------------------------------------------------------------------------------------
+// C18 effect parity: "the result and filesystem effect of each read and write equal those of the
+// same operation performed through the synchronous file API". The completion-time executors
+// `exec_write` / `exec_read` run against a REAL turmoil-fs `Fs` (built against the std::path model,
+// DESIGN.md 2.2) and are compared with `Fs::write_file` / `Fs::read_file` / `Fs::file_len` applied
+// to a twin filesystem: same CQE result, same bytes, same length; a bad fd completes with -EBADF
+// and neither the buffer nor the filesystem is touched. Fault knobs are off (defaults).
+use turmoil_fs::verif_path::PathBuf as MPathBuf;
+
+fn fs_with_open_file(fd_out: &mut RawFd) -> Fs {
+    let mut fs = Fs::new(turmoil_fs::FsConfig::default(), 7);
+    let fd = fs.alloc_fd();
+    fs.open_handles.insert(fd, MPathBuf::from("/f"));
+    *fd_out = fd;
+    fs
+}
+
+// @verif id=C18 tier=quick role=effect_parity timeout=1500 mem=12
+#[kani::proof]
+#[kani::stub(tokio::sync::Notify::notify_waiters, stub_notify_waiters)]
+#[kani::unwind(10)]
+fn c18_ring_write_and_read_equal_the_file_api() {
+    let mut fd: RawFd = 0;
+    let mut ring_fs = fs_with_open_file(&mut fd);
+    let mut twin = fs_with_open_file(&mut fd);
+    let path = MPathBuf::from("/f");
+    let d: [u8; 2] = kani::any();
+    let off: u64 = kani::any();
+    kani::assume(off <= 1);
+    let now = ms(kani::any());
+    let mut rng = SymRng;
+    // write through the ring executor vs the file API
+    let res = exec_write(&mut ring_fs, &mut rng, fd, d.as_ptr(), 2, off, now);
+    twin.write_file(&path, off, &d, now);
+    assert!(res == 2, "CQE result = bytes written");
+    assert!(ring_fs.file_len(&path) == twin.file_len(&path) && twin.file_len(&path) == off + 2);
+    // read through the ring executor vs the file API
+    let mut rb = [7u8; 3];
+    let mut tb = [7u8; 3];
+    let rn = exec_read(&mut ring_fs, &mut rng, fd, rb.as_mut_ptr(), 3, 0);
+    let tn = twin.read_file(&path, &mut tb, 0);
+    assert!(rn >= 0 && rn as usize == tn, "CQE result = bytes read by the file API");
+    assert!(rb[0] == tb[0] && rb[1] == tb[1] && rb[2] == tb[2], "same bytes, same untouched tail");
+    assert!(rb[off as usize] == d[0] && rb[off as usize + 1] == d[1]);
+    // a bad fd: -EBADF, buffer and filesystem untouched
+    let mut bb = [7u8; 2];
+    assert!(exec_read(&mut ring_fs, &mut rng, fd + 1, bb.as_mut_ptr(), 2, 0) == -EBADF && bb[0] == 7 && bb[1] == 7);
+    assert!(exec_write(&mut ring_fs, &mut rng, fd + 1, d.as_ptr(), 2, 0, now) == -EBADF);
+    assert!(ring_fs.file_len(&path) == off + 2);
+    kani::cover!(off == 1 && rn == 3, "write at an offset, read of the whole file");
+    std::mem::forget(ring_fs);
+    std::mem::forget(twin);
+}
+
+// capacity: a ring write is refused with -ENOSPC exactly when the GROWTH of the file does not fit
+// (the synchronous API charges only the bytes by which the file grows), and a refused write has no
+// effect. Disk of `cap` bytes (symbolic 2..4) holding one 2-byte file; the ring writes 2 bytes at
+// offset 1 (growth 1).
+// @verif id=C18 tier=quick role=effect_parity timeout=1500 mem=12
+#[kani::proof]
+#[kani::stub(tokio::sync::Notify::notify_waiters, stub_notify_waiters)]
+#[kani::unwind(10)]
+fn c18_ring_write_charges_only_the_growth_against_capacity() {
+    let cap: u64 = kani::any();
+    kani::assume(cap >= 2 && cap <= 4);
+    let mut cfg = turmoil_fs::FsConfig::default();
+    cfg.capacity(cap);
+    let mut fs = Fs::new(cfg, 7);
+    let fd2 = fs.alloc_fd();
+    fs.open_handles.insert(fd2, MPathBuf::from("/f"));
+    let path = MPathBuf::from("/f");
+    let d: [u8; 2] = kani::any();
+    let now = ms(kani::any());
+    let mut rng = SymRng;
+    fs.write_file(&path, 0, &d, now); // 2 bytes used
+    let res = exec_write(&mut fs, &mut rng, fd2, d.as_ptr(), 2, 1, now);
+    let fits = 2 + 1 <= cap;
+    assert!((res == 2) == fits && (res == -ENOSPC) == !fits, "refused exactly when the growth does not fit");
+    assert!(fs.file_len(&path) == if fits { 3 } else { 2 }, "a refused write has no effect");
+    kani::cover!(cap == 3 && res == 2, "growth fits exactly although the whole write would not");
+    kani::cover!(cap == 2 && res == -ENOSPC, "disk full");
+    std::mem::forget(fs);
+}
